@@ -2792,4 +2792,69 @@ theorem C04_select_from_example :
   C04_select_from_mindsdb _ _ (plainWord_of_mem _ 99 _ rfl (by decide) (by decide)) (by decide +kernel) (by decide +kernel)
     (by decide +kernel) (plainWord_of_mem _ 116 _ rfl (by decide) (by decide)) (by decide +kernel)
 
+open MindsVerif.Props.C02Lex in
+/-- **blank-separated keywords and names ending in a digit string** lex to the expected tokens followed by `INTEGER` -/
+theorem C04_words_int_lex (c : Cfg) (hc : classOK c = true) (hcn : classOKnum c = true) (hd : stopOKnum c 44 = true)
+    (hign : c.ignore.mem 32 = true) (hW32 : c.word.mem 32 = false)
+    (ws : List (List Nat)) (hall : ∀ w ∈ ws, PlainWord w ∧ wordOK c w = true) (n : List Nat) (hne : n ≠ [])
+    (hn : ∀ x ∈ n, inSet digitSet x) : lex c (wordsText ws n) = .ok (wordsSegs c ws ++ [.tok "INTEGER" false n]) := by
+  have hignD : disjointR c.ignore digitSet = true := by
+    unfold classOKnum at hcn
+    cases hs : splitAt "INTEGER" c.rules with
+    | none => rw [hs] at hcn; cases hcn
+    | some x => rw [hs] at hcn; simp only [Bool.and_eq_true] at hcn; exact hcn.2
+  have h1 := words_steps c hc hign hW32 ws hall [] (by simp [isWordAt]) n
+  obtain ⟨ir, hnm, hi, hfm⟩ := digits_firstMatch c hcn 44 hd ((wordsText ws []).reverse ++ []) n [] hne hn (Or.inl rfl)
+  obtain ⟨n0, tn, en⟩ : ∃ n0 tn, n = n0 :: tn := by
+    cases n with
+    | nil => exact absurd rfl hne
+    | cons n0 tn => exact ⟨n0, tn, rfl⟩
+  have hig0 : c.ignore.mem n0 = false := by
+    cases h : c.ignore.mem n0 with
+    | false => rfl
+    | true => exact (disjointR_sound hignD (mem_sound h) (hn n0 (by rw [en]; exact List.mem_cons_self))).elim
+  simp only [List.append_nil] at hfm
+  have h2 : Step c ⟨(wordsText ws []).reverse ++ [], n⟩ (.tok "INTEGER" false n) ⟨n.reverse ++ ((wordsText ws []).reverse ++ []), []⟩ := by
+    have := Step.tok ⟨(wordsText ws []).reverse ++ [], n⟩ n0 tn ir _ en hig0 (by simpa using hfm) (by rw [en]; simp)
+    have hb := between_adv ((wordsText ws []).reverse ++ []) n []
+    simp only [List.append_nil] at hb this
+    rw [hb, hnm, hi] at this
+    simpa using this
+  exact steps_lex c _ _ _ (Steps_append h1 (Steps.cons h2 (Steps.nil _))) rfl
+
+/-- **`select <a> from <t> limit <n>`** on the live MindsDB rules: for all blank-safe non-keyword names `a`, `t` and all digit strings `n` -/
+theorem C04_select_from_limit_mindsdb (a t n : List Nat)
+    (ha : PlainWord a) (hab : stopOKw LexRe_mindsdb.cfg 32 a = true) (hak : isKw LexRe_mindsdb.cfg a = false)
+    (hanone : kwRuleOf LexRe_mindsdb.cfg a = none)
+    (ht : PlainWord t) (htb : stopOKw LexRe_mindsdb.cfg 32 t = true) (htk : isKw LexRe_mindsdb.cfg t = false)
+    (htnone : kwRuleOf LexRe_mindsdb.cfg t = none)
+    (hne : n ≠ []) (hn : ∀ x ∈ n, inSet digitSet x) :
+    lex LexRe_mindsdb.cfg ([115, 101, 108, 101, 99, 116, 32] ++ a ++ [32, 102, 114, 111, 109, 32] ++ t ++ [32, 108, 105, 109, 105, 116, 32] ++ n) =
+      .ok [.tok "SELECT" false [115, 101, 108, 101, 99, 116], .skip 32, .tok "ID" false a, .skip 32,
+           .tok "FROM" false [102, 114, 111, 109], .skip 32, .tok "ID" false t, .skip 32,
+           .tok "LIMIT" false [108, 105, 109, 105, 116], .skip 32, .tok "INTEGER" false n] := by
+  have hsel : PlainWord [115, 101, 108, 101, 99, 116] ∧ wordOK LexRe_mindsdb.cfg [115, 101, 108, 101, 99, 116] = true :=
+    ⟨plainWord_of_mem _ 115 _ rfl (by decide) (by decide), by decide +kernel⟩
+  have hfrom : PlainWord [102, 114, 111, 109] ∧ wordOK LexRe_mindsdb.cfg [102, 114, 111, 109] = true :=
+    ⟨plainWord_of_mem _ 102 _ rfl (by decide) (by decide), by decide +kernel⟩
+  have hlim : PlainWord [108, 105, 109, 105, 116] ∧ wordOK LexRe_mindsdb.cfg [108, 105, 109, 105, 116] = true :=
+    ⟨plainWord_of_mem _ 108 _ rfl (by decide) (by decide), by decide +kernel⟩
+  have hao : wordOK LexRe_mindsdb.cfg a = true := by unfold wordOK; rw [hanone]; simp [hab, hak]
+  have hto : wordOK LexRe_mindsdb.cfg t = true := by unfold wordOK; rw [htnone]; simp [htb, htk]
+  have := C04_words_int_lex LexRe_mindsdb.cfg classOK_mindsdb classOKnum_mindsdb stopOKnum_live.2.2.1 (by decide +kernel) (by decide +kernel)
+    [[115, 101, 108, 101, 99, 116], a, [102, 114, 111, 109], t, [108, 105, 109, 105, 116]]
+    (by intro w hw; simp only [List.mem_cons, List.not_mem_nil, or_false] at hw
+        rcases hw with rfl | rfl | rfl | rfl | rfl
+        · exact hsel
+        · exact ⟨ha, hao⟩
+        · exact hfrom
+        · exact ⟨ht, hto⟩
+        · exact hlim) n hne hn
+  have e1 : wordSeg LexRe_mindsdb.cfg [115, 101, 108, 101, 99, 116] = .tok "SELECT" false [115, 101, 108, 101, 99, 116] := by decide +kernel
+  have e2 : wordSeg LexRe_mindsdb.cfg [102, 114, 111, 109] = .tok "FROM" false [102, 114, 111, 109] := by decide +kernel
+  have e4 : wordSeg LexRe_mindsdb.cfg [108, 105, 109, 105, 116] = .tok "LIMIT" false [108, 105, 109, 105, 116] := by decide +kernel
+  have e3 : wordSeg LexRe_mindsdb.cfg a = .tok "ID" false a := by unfold wordSeg; rw [hanone]
+  have e5 : wordSeg LexRe_mindsdb.cfg t = .tok "ID" false t := by unfold wordSeg; rw [htnone]
+  simpa [wordsText, wordsSegs, e1, e2, e3, e4, e5] using this
+
 end MindsVerif.Props.C04Lex
